@@ -54,6 +54,9 @@ func seq(n int) []int {
 func genCase(t *rapid.T) Case {
 	c := Case{Nodes: rapid.IntRange(1, 4).Draw(t, "nodes"), Metric: rapid.IntRange(0, 2).Draw(t, "metric"), Dim: rapid.IntRange(1, 4).Draw(t, "dim")}
 	p := rapid.IntRange(1, 8).Draw(t, "partitions")
+	if rapid.IntRange(0, 24).Draw(t, "many") == 0 {
+		p = rapid.IntRange(17, 40).Draw(t, "manypartitions") // more partitions on one node than any per-request limit one might think of
+	}
 	vec := gen.Vector(c.Dim, c.Metric == 2)
 	total := 0
 	for i := 0; i < p; i++ {
@@ -77,6 +80,9 @@ func genCase(t *rapid.T) Case {
 			// how the failing call / stream ends: a plain error, gRPC status Canceled / Unknown / DeadlineExceeded /
 			// Internal / Unavailable, or the bare context.Canceled value (-1) while the query's own context is alive
 			b.Code = rapid.SampledFrom([]int{0, 0, 1, 1, 2, 4, 13, 14, -1, -1}).Draw(t, "code")
+			if b.Kind != lite.BehHang && rapid.IntRange(0, 2).Draw(t, "transient") == 0 {
+				b.Times = rapid.IntRange(1, 2).Draw(t, "times") // only the node's first call(s) fail
+			}
 		}
 		c.Beh = append(c.Beh, b)
 	}
@@ -171,7 +177,7 @@ func check(c Case, o *pbt.Obs) *pbt.Failure {
 					return pbt.Failf("C09:wrong-replica", "%s rep %d: partition %s searched on node %d which does not host it", desc, rep, gen.IDHex(pid), idxOf(call.To))
 				}
 			}
-			if call.Err != nil || c.Beh[idxOf(call.To)].Kind >= lite.BehError {
+			if call.Err != nil || (c.Beh[idxOf(call.To)].Kind >= lite.BehError && c.Beh[idxOf(call.To)].Times == 0) {
 				failed++
 			}
 			for _, it := range call.Items {
